@@ -10,7 +10,7 @@ set -u
 patch=$(readlink -f "$1"); lab=$2; shift 2
 L=/tmp/mutlab/$lab
 mkdir -p "$L"
-rsync -a --delete --exclude '.git' --exclude 'work/*/cases' --exclude 'work/mut' --exclude 'work/team' /verif/ "$L/verif/"
+rsync -a --delete --exclude '.git' --exclude 'work' /verif/ "$L/verif/"; mkdir -p "$L/verif/work"
 if [ -d "$L/repo" ]; then git -C /repo worktree remove --force "$L/repo" 2>/dev/null; rm -rf "$L/repo"; fi
 git -C /repo worktree add --detach -q "$L/repo" HEAD || exit 2
 if [ "$patch" != "/dev/null" ]; then git -C "$L/repo" apply "$patch" || { echo "patch does not apply"; exit 2; }; fi
